@@ -152,6 +152,11 @@ func c11Harness(cfg *Cfg) func(x *mc.Exec) {
 	chunks := []int{0, 1, 7, 24, 25}
 	bufios := []int{0, 16, 4096, 65536}
 	pols := []env.ReadPolicy{env.PolicyAll, env.Policy4096, env.Policy1}
+	if cfg.Thorough {
+		chunks = []int{0, 1, 2, 3, 5, 7, 8, 9, 13, 23, 24, 25, 26, 100, 4095, 4096}
+		bufios = []int{0, 16, 17, 64, 328, 4096, 4097, 65536}
+		pols = []env.ReadPolicy{env.PolicyAll, env.Policy4096, env.Policy258, env.Policy7, env.Policy1, env.PolicyAlt}
+	}
 	return func(x *mc.Exec) {
 		fs := streams[x.Choose(len(streams), "stream")]
 		pi := x.Choose(len(fs.points), "prefix")
